@@ -42,6 +42,15 @@ def ClassId.set (pr : Char → Bool) (c : ClassId) (cur : Val) (text : Str) : Se
   | .int k => (k.set text).map Val.i
   | .list k => .ok (.l (k.set text))
 
+/-- `node.setValue(v)`: the stored value or the rejection -/
+def ClassId.setValue (c : ClassId) (v : Val) : SetRes Val :=
+  match c, v with
+  | .str k, .s x => .ok (.s (k.setValue x))
+  | .bool, .b x => .ok (.b x)
+  | .int k, .i x => (k.setValue x).map Val.i
+  | .list _, .l x => .ok (.l x)
+  | _, _ => .unm
+
 /-- `str(node)` -/
 def ClassId.show (pr : Char → Bool) (c : ClassId) (v : Val) : Str :=
   match c, v with
